@@ -15,6 +15,8 @@ func VFRun(env *vfc.Env) {
 		vfC16(env)
 	case "store.c09":
 		vfC09(env)
+	case "store.c08tree":
+		vfC08Tree(env)
 	case "store.c14":
 		vfC14(env)
 	default:
